@@ -43,6 +43,11 @@ def run(ck):
     contents = initial_contents(LIB)
     if ck.tier == 'quick':
         contents = {k: contents[k] for k in ('absent', 'one_foreign', 'three_foreign_nonl', 'big_foreign', 'own_middle', 'own_last_nonl', 'big_with_own')}
+    # the same contents with the preload file being a symbolic link, having a second hard link, or having leftover siblings
+    # (ld.so.preload.bak / .old / ~ / .tmp from earlier tools or runs) next to it
+    for base in ('one_foreign', 'own_middle', 'big_with_own'):
+        for kind in ('symlink', 'hardlink', 'siblings'):
+            contents['%s@%s' % (base, kind)] = contents[base]
     counter = [0]
 
     def one(args):
@@ -52,8 +57,19 @@ def run(ck):
         shutil.rmtree(d, ignore_errors=True)
         os.makedirs(d)
         pf = os.path.join(d, 'ld.so.preload')
+        kind = cname.split('@')[1] if '@' in cname else 'regular'
         if contents[cname] is not None:
-            open(pf, 'wb').write(contents[cname])
+            if kind == 'symlink':
+                os.mkdir(os.path.join(d, 'real'))
+                open(os.path.join(d, 'real', 'preload.real'), 'wb').write(contents[cname])
+                os.symlink(os.path.join(d, 'real', 'preload.real'), pf)
+            else:
+                open(pf, 'wb').write(contents[cname])
+            if kind == 'hardlink':
+                os.link(pf, os.path.join(d, 'second-name-of-the-preload-file'))
+            if kind == 'siblings':
+                for sfx in ('.bak', '.old', '~', '.tmp', '.new'):
+                    open(pf + sfx, 'wb').write(b'/stale/libstale.so\n')
         env = dict(CLEAN_ENV, SNOOPY_TEST_LD_SO_PRELOAD_PATH=pf, SNOOPY_TEST_LIBSNOOPY_SO_PATH=LIBP)
         rep = X.run(sx, d, [cli, cmd], opts=['--whole', '--maxcalls', '5000'] + list(opts), env=env, timeout=60)
         try:
